@@ -37,6 +37,11 @@ type Config struct {
 	// TerminalOK lists the outcomes that are regular ends of an execution for this scenario
 	// ("complete" always is; "deadlock" when quiescent loops parked in epoll_wait are expected).
 	DeadlockIsEnd bool
+	// DelayBounded: every departure from the default schedule costs one unit of PB, also at points
+	// where the running thread could not continue (there the default is the lowest enabled thread
+	// id). This is delay-bounded scheduling; it keeps engine-level scenarios (many threads that
+	// block often) enumerable. When false, switches at blocking points are free (CHESS).
+	DelayBounded bool
 }
 
 // Violation of a scheduler-based check.
@@ -53,18 +58,19 @@ type Violation struct {
 
 // Stats of one exploration.
 type Stats struct {
-	Scenario   string           `json:"scenario"`
-	Executions int64            `json:"executions"`
-	Steps      int64            `json:"steps"`
-	MaxSteps   int              `json:"max_steps"`
-	Completed  string           `json:"bound_completed"`
-	Capped     string           `json:"capped,omitempty"`
-	Outcomes   int              `json:"distinct_outcomes"`
-	Ends       map[string]int64 `json:"ends"`
-	Threads    int              `json:"threads"`
-	Rotations  int64            `json:"fair_rotations"`
-	PerBound   []string         `json:"per_bound"`
-	Samples    []string         `json:"samples,omitempty"`
+	Scenario    string           `json:"scenario"`
+	Executions  int64            `json:"executions"`
+	Steps       int64            `json:"steps"`
+	MaxSteps    int              `json:"max_steps"`
+	Completed   string           `json:"bound_completed"`
+	Capped      string           `json:"capped,omitempty"`
+	Outcomes    int              `json:"distinct_outcomes"`
+	Ends        map[string]int64 `json:"ends"`
+	Threads     int              `json:"threads"`
+	Rotations   int64            `json:"fair_rotations"`
+	PerBound    []string         `json:"per_bound"`
+	Samples     []string         `json:"samples,omitempty"`
+	Divergences int64            `json:"replay_divergences"`
 }
 
 type workItem struct {
@@ -123,6 +129,9 @@ func Explore(cfg Config) (Stats, []Violation) {
 	{
 		s1, o1 := runScenario(&cfg, nil, true)
 		s2, o2 := runScenario(&cfg, nil, true)
+		if o1.End == "panic" {
+			panic("sched: scenario " + cfg.Name + " panics on the default schedule: " + o1.PanicMsg)
+		}
 		if !sameDecisions(o1.Decisions, o2.Decisions) || s1.Observe() != s2.Observe() || o1.End != o2.End {
 			panic(fmt.Sprintf("sched: scenario %s is not deterministic under replay: ends %s/%s, decisions %d/%d, observe %q / %q",
 				cfg.Name, o1.End, o2.End, len(o1.Decisions), len(o2.Decisions), s1.Observe(), s2.Observe()))
@@ -150,6 +159,10 @@ func Explore(cfg Config) (Stats, []Violation) {
 				// whole subtrees below level 2 belong to one shard; decided when the level-2 node is popped
 			}
 			sc, out := runScenario(&cfg, it.prefix, false)
+			if out.End == "divergence" {
+				st.Divergences++
+				continue
+			}
 			owned := it.level >= 2 || cfg.ShardI == 0
 			if owned && mine {
 				execs++
@@ -185,7 +198,7 @@ func Explore(cfg Config) (Stats, []Violation) {
 					pb, db := it.pb, it.db
 					if d.Kind == 'C' {
 						db++
-					} else if !d.Free {
+					} else if !d.Free || cfg.DelayBounded {
 						pb++
 					}
 					if pb > b.PB || db > b.DB {
@@ -223,7 +236,13 @@ func Explore(cfg Config) (Stats, []Violation) {
 			break
 		}
 		st.Completed = fmt.Sprintf("PB=%d DB=%d", b.PB, b.DB)
-		if len(viol) > 0 {
+		unknown := false
+		for sig := range viol {
+			if !IsKnown(sig) {
+				unknown = true
+			}
+		}
+		if unknown {
 			break // the first counter-example has the fewest deviations
 		}
 	}
@@ -302,4 +321,21 @@ func EnvInt(name string, def int) int {
 		return v
 	}
 	return def
+}
+
+var knownSigs map[string]bool
+
+// IsKnown reports whether sig is listed as a known finding for the running check (the
+// orchestrator passes the list in MC_KNOWN): such a violation is reported once, but it neither
+// stops the exploration nor hides other violations.
+func IsKnown(sig string) bool {
+	if knownSigs == nil {
+		knownSigs = map[string]bool{}
+		for _, k := range strings.Split(os.Getenv("MC_KNOWN"), "\x1f") {
+			if k != "" {
+				knownSigs[k] = true
+			}
+		}
+	}
+	return knownSigs[sig]
 }
